@@ -74,7 +74,11 @@ class QMap(afmformats.AFMQMap):
                   cache=False)
     def feat_meta_rating(idnt):
         """Rating"""
-        if idnt._rating is None:
+        # The rating is cached together with the hash of the fit it
+        # belongs to (see `Indentation.rate_quality`); a rating of a
+        # previous fit is not the rating of the current one.
+        curhash = idnt.fit_properties.get("hash", "none")
+        if idnt._rating is None or idnt._rating[0] != curhash:
             msg = "The experimental data has not been rated. Please call " \
                   + "`idnt.rate_quality` manually for {}!".format(idnt)
             warnings.warn(msg, DataMissingWarning)
